@@ -1,4 +1,35 @@
-(* C01 (third file): the merging pass shake_1 on nested-free trees: proofs. *)
+(* C01 (third file): the merging pass shake_1 on nested-free trees: proofs.
+
+   Proved exactly as stated in Properties/C01_shake1.v:
+     shake1_keeps_flat, shake1_flat_example.
+
+   FALSE as stated (witnesses evaluated with vm_compute), proved with extra hypotheses under
+   the name <name>_alt:
+     shake1_exact_flat  -> shake1_exact_flat_alt
+         + (forall l, Permutation (ord l) l)   the hash order is a permutation (convention of
+                                               C12.amap_iter_perm); `ord` ranges over ALL
+                                               functions, one that drops keys drops the merged
+                                               searches: shake1_exact_flat_refuted
+         + C01.cmp_leaves e = true             wf_body says nothing about the operands of a
+                                               comparison; shake_1 unwraps a one-member group
+                                               there: shake1_exact_flat_refuted_cmp
+     shake_exact_flat   -> shake_exact_flat_alt              + (forall l, Permutation (ord l) l)
+         witness shake_exact_flat_refuted     (shx already makes comparison operands leaves)
+     optimise_no_matrix_exact_flat -> optimise_no_matrix_exact_flat_alt
+                                                             + (forall l, Permutation (ord l) l)
+         witness optimise_no_matrix_exact_flat_refuted; every other hypothesis is kept as it is.
+   Stronger forms (the hash order only has to KEEP every key: ord_keeps; any document that does
+   not panic): shake1_exact_flat_keeps, shake_exact_flat_keeps,
+   optimise_no_matrix_exact_flat_keeps.
+
+   Method.  Part A: what the or-arm builds, as membership facts (the regrouped list contains
+   exactly: the `any` searches, one search per needles key, one per patterns key, the rest).
+   Part B: shape preservation.  Part C: on a document that does not panic an or-group is T iff
+   some member is T, M iff all members are M; a merged search is T (defined) iff one of the
+   searches merged into it is -- they share field and cast, hence the strings looked at.  All
+   of Part C is done for conditions (solve_cond o ids, identifiers as leaves); bodies are the
+   instance ids = [].  Part E ports C01.shake0_post to conditions (no nested blocks), which
+   the whole-rule statement needs when coalesce is off. *)
 From TauModel Require Import Base Num Oracles Syntax Value Solver Rule Keys Optimiser Known.
 From Coq Require Import Lia ZArith ZifyBool List Bool Permutation.
 Import ListNotations.
@@ -526,6 +557,66 @@ Proof.
   intros ord fuel e Hw Hn. destruct (shake1_keeps3 ord fuel e Hn) as [H1 [H2 _]]. auto.
 Qed.
 
+Lemma shake1_ident : forall ord fuel i, shake1 ord fuel (EIdent i) = EIdent i.
+Proof. intros ord [|fu] i; reflexivity. Qed.
+
+Lemma srch_wfc : forall ids y, srch y = true -> wf_cond ids y = true.
+Proof. intros ids y H. destruct y; try discriminate. reflexivity. Qed.
+
+(* ... and, on conditions, the known identifiers *)
+Lemma shake1_keeps_wfc : forall ord ids fuel e,
+  no_nested e = true -> wf_cond ids e = true -> wf_cond ids (shake1 ord fuel e) = true.
+Proof.
+  intros ord ids. induction fuel as [|fu IH]; intros e Hnn Hw; [exact Hw|].
+  destruct e as [s l|l s r|b|f m|f|z|i|z|k e|cols rows|e|f e| |s f c];
+    try (cbn [shake1]; exact Hw).
+  - (* EGroup *)
+    cbn [no_nested] in Hnn. cbn [wf_cond] in Hw. apply andb_true_iff in Hw. destruct Hw as [Hs Hw].
+    set (L := map (shake1 ord fu) l).
+    assert (HLnn : forall y, In y L -> no_nested y = true).
+    { intros y Hy. apply in_map_iff in Hy. destruct Hy as [x [<- Hx]].
+      apply (shake1_keeps3 ord fu x). apply (forallb_In _ _ _ Hnn Hx). }
+    assert (HLw : forall y, In y L -> wf_cond ids y = true).
+    { intros y Hy. apply in_map_iff in Hy. destruct Hy as [x [<- Hx]].
+      apply IH; [apply (forallb_In _ _ _ Hnn Hx)|apply (forallb_In _ _ _ Hw Hx)]. }
+    assert (Hgrp : forall L', (forall y, In y L' -> srch y = true \/ In y L) ->
+              no_nested (EGroup s L') = true /\ wf_cond ids (EGroup s L') = true).
+    { intros L' HL'. split.
+      - cbn [no_nested]. apply forallb_forall. intros y Hy.
+        destruct (HL' y Hy) as [H|H]; [apply (srch_shape y H)|apply HLnn; exact H].
+      - cbn [wf_cond]. rewrite Hs. cbn [andb]. apply forallb_forall. intros y Hy.
+        destruct (HL' y Hy) as [H|H]; [apply srch_wfc; exact H|apply HLw; exact H]. }
+    assert (Hcollapse : forall L', (forall y, In y L' -> srch y = true \/ In y L) ->
+              wf_cond ids (match L' with [x] => x | _ => EGroup s L' end) = true).
+    { intros L' HL'. apply collapse_ok; [|apply Hgrp; exact HL']. intros y Hy.
+      destruct (HL' y Hy) as [H|H]; [apply srch_wfc; exact H|apply HLw; exact H]. }
+    destruct s; try discriminate Hs.
+    + rewrite shake1_and_eq by exact HLnn. fold L. cbv zeta.
+      apply Hcollapse. intros y Hy. right. exact Hy.
+    + rewrite shake1_or_eq by exact HLnn. fold L. cbv zeta.
+      pose proof (or_scratch_members ord L) as HS.
+      destruct (negb (length (or_scratch ord L) =? length l)%nat).
+      * destruct (Hgrp _ HS) as [G1 G2]. apply IH; assumption.
+      * apply Hcollapse. exact HS.
+  - (* EBexp *)
+    cbn [shake1]. cbn [no_nested] in Hnn. apply andb_true_iff in Hnn. destruct Hnn as [Hl Hr].
+    cbn [wf_cond] in *. destruct (is_and_or_op s); [|reflexivity].
+    apply andb_true_iff in Hw. destruct Hw as [Hwl Hwr].
+    rewrite (IH l Hl Hwl), (IH r Hr Hwr). reflexivity.
+  - (* EMatch *)
+    cbn [no_nested] in Hnn. cbn [wf_cond] in Hw.
+    destruct e as [s l|l s r|b|f m|f|z|i|z|k0 e|cols rows|e|f e| |s f c];
+      try (cbn [shake1]; exact (IH _ Hnn Hw)).
+    cbn [shake1]. cbn [no_nested wf_cond] in *.
+    apply andb_true_iff in Hw. destruct Hw as [Hs Hw]. rewrite Hs. cbn [andb].
+    apply forallb_map_intro. intros x Hx.
+    apply IH; [apply (forallb_In _ _ _ Hnn Hx)|apply (forallb_In _ _ _ Hw Hx)].
+  - (* ENegate *)
+    cbn [shake1]. cbn [no_nested wf_cond] in *. apply IH; assumption.
+  - (* ENested *)
+    discriminate Hnn.
+Qed.
+
 (* ====================================================================== *)
 (*  Part C: three-valued exactness                                         *)
 (* ====================================================================== *)
@@ -570,17 +661,70 @@ Proof.
   destruct e; reflexivity.
 Qed.
 
+(* ---- unfolding equations of the solver, any identifier table ---- *)
+Section CondEq.
+Variable o : oracles.
+Variable ids : list (str * expr).
+Local Notation slv := (solve_cond o ids).
+
+Lemma cs_group_and : forall g d,
+  slv (EGroup BAnd g) d = and_fold (map (fun x (_ : unit) => slv x d) g).
+Proof. reflexivity. Qed.
+Lemma cs_group_or : forall g d,
+  slv (EGroup BOr g) d = or_fold M (map (fun x (_ : unit) => slv x d) g).
+Proof. reflexivity. Qed.
+Lemma cs_bexp_and : forall l r d,
+  slv (EBexp l BAnd r) d = and2 (fun _ => slv l d) (fun _ => slv r d).
+Proof. reflexivity. Qed.
+Lemma cs_bexp_or : forall l r d,
+  slv (EBexp l BOr r) d = or2 (fun _ => slv l d) (fun _ => slv r d).
+Proof. reflexivity. Qed.
+Lemma cs_negate : forall e d, slv (ENegate e) d = (do r <- slv e d; Ok (neg3 r)).
+Proof. reflexivity. Qed.
+Lemma cs_all_group : forall s g d,
+  slv (EMatch MAll (EGroup s g)) d = and_fold (map (fun x (_ : unit) => slv x d) g).
+Proof. reflexivity. Qed.
+Lemma cs_of_group : forall n s g d,
+  slv (EMatch (MOf n) (EGroup s g)) d = of_fold n (map (fun x (_ : unit) => slv x d) g).
+Proof. reflexivity. Qed.
+Lemma cs_all_other : forall e d, other_q e = true -> slv (EMatch MAll e) d = slv e d.
+Proof. intros e d H. destruct e; try discriminate; reflexivity. Qed.
+Lemma cs_of_other : forall n e d, other_q e = true ->
+  slv (EMatch (MOf n) e) d =
+  if (n =? 0)%Z then (do r <- slv e d; Ok (match r with T => F | F => T | M => M end))
+  else (do r <- slv e d; Ok (match r with T => if (1 <? n)%Z then F else T | x => x end)).
+Proof. intros n e d H. destruct e; try discriminate; reflexivity. Qed.
+
+Lemma cs_group_single : forall s y d, is_and_or s = true -> slv (EGroup s [y]) d = slv y d.
+Proof.
+  intros s y d Hs. destruct s; try discriminate.
+  - rewrite cs_group_and. cbn [map]. apply and_single.
+  - rewrite cs_group_or. cbn [map]. apply or_single.
+Qed.
+
+Lemma h7c : forall e e', other_q e = true -> other_q e' = true ->
+  (forall d, slv e' d = slv e d) ->
+  forall k d, slv (EMatch k e') d = slv (EMatch k e) d.
+Proof.
+  intros e e' He He' H [|n] d.
+  - rewrite !cs_all_other by assumption. apply H.
+  - rewrite !cs_of_other by assumption. rewrite H. reflexivity.
+Qed.
+End CondEq.
+
 Section Sem.
 Variable o : oracles.
+Variable ids : list (str * expr).
+Hypothesis Hids : forallb (fun kv => wf_body (snd kv)) ids = true.
 Variable dq : docq.
 Hypothesis Hdq : C03.npd dq.
 
 (* the value of a member (members of well-formed trees do not panic on such a document) *)
-Definition rv (x : expr) : res3 := match solve_body o x dq with Ok v => v | _ => M end.
+Definition rv (x : expr) : res3 := match solve_cond o ids x dq with Ok v => v | _ => M end.
 
-Lemma rv_ok : forall x, wf_body x = true -> solve_body o x dq = Ok (rv x).
+Lemma rv_ok : forall x, wf_cond ids x = true -> solve_cond o ids x dq = Ok (rv x).
 Proof.
-  intros x H. destruct (C03.solve_body_ok o x dq H Hdq) as [r Hr].
+  intros x H. destruct (C03.solve_cond_ok o ids x dq H Hids Hdq) as [r Hr].
   unfold rv. rewrite Hr. reflexivity.
 Qed.
 
@@ -588,8 +732,8 @@ Definition tb (x : expr) : bool := res3_eqb (rv x) T.
 Definition db (x : expr) : bool := negb (res3_eqb (rv x) M).
 
 (* an or-group: true if some member is, else false if some member is defined, else missing *)
-Lemma or_fold_rv : forall l, (forall x, In x l -> wf_body x = true) -> forall acc, acc <> T ->
-  or_fold acc (map (fun x (_ : unit) => solve_body o x dq) l) =
+Lemma or_fold_rv : forall l, (forall x, In x l -> wf_cond ids x = true) -> forall acc, acc <> T ->
+  or_fold acc (map (fun x (_ : unit) => solve_cond o ids x dq) l) =
   Ok (if existsb tb l then T else if existsb db l then F else acc).
 Proof.
   induction l as [|x l IH]; intros Hw acc Hacc; cbn [map or_fold existsb].
@@ -598,7 +742,7 @@ Proof.
     assert (Etb : tb x = res3_eqb (rv x) T) by reflexivity.
     assert (Edb : db x = negb (res3_eqb (rv x) M)) by reflexivity.
     rewrite Etb, Edb.
-    assert (Hw' : forall y, In y l -> wf_body y = true) by (intros y Hy; apply Hw; right; exact Hy).
+    assert (Hw' : forall y, In y l -> wf_cond ids y = true) by (intros y Hy; apply Hw; right; exact Hy).
     destruct (rv x); cbn [res3_eqb negb orb].
     + reflexivity.
     + rewrite (IH Hw' F) by discriminate.
@@ -607,10 +751,10 @@ Proof.
 Qed.
 
 Lemma or_fold_equiv : forall l l',
-  (forall x, In x l -> wf_body x = true) -> (forall x, In x l' -> wf_body x = true) ->
+  (forall x, In x l -> wf_cond ids x = true) -> (forall x, In x l' -> wf_cond ids x = true) ->
   existsb tb l = existsb tb l' -> existsb db l = existsb db l' ->
-  or_fold M (map (fun x (_ : unit) => solve_body o x dq) l) =
-  or_fold M (map (fun x (_ : unit) => solve_body o x dq) l').
+  or_fold M (map (fun x (_ : unit) => solve_cond o ids x dq) l) =
+  or_fold M (map (fun x (_ : unit) => solve_cond o ids x dq) l').
 Proof.
   intros l l' H1 H2 H3 H4. rewrite (or_fold_rv l H1 M), (or_fold_rv l' H2 M) by discriminate.
   rewrite H3, H4. reflexivity.
@@ -642,7 +786,7 @@ Definition ftexts (f : str) (cast : bool) : option (list str) :=
 Lemma rv_search : forall s f cast,
   rv (ESearch s f cast) = res_of_search (option_map (existsb (search o s)) (ftexts f cast)).
 Proof.
-  intros s f cast. unfold rv, solve_body. cbn [solve]. unfold field_search, ftexts.
+  intros s f cast. unfold rv, solve_cond. cbn [solve]. unfold field_search, ftexts.
   destruct (Hdq f) as [v Hv]. rewrite Hv. cbn [bind].
   destruct v as [v|]; [rewrite search_value_texts|]; reflexivity.
 Qed.
@@ -830,16 +974,16 @@ Proof.
 Qed.
 
 Lemma or_scratch_exact : forall ord L, ord_keeps ord ->
-  (forall x, In x L -> wf_body x = true) -> (forall x, In x L -> no_nested x = true) ->
-  or_fold M (map (fun x (_ : unit) => solve_body o x dq) (or_scratch ord L)) =
-  or_fold M (map (fun x (_ : unit) => solve_body o x dq) L).
+  (forall x, In x L -> wf_cond ids x = true) -> (forall x, In x L -> no_nested x = true) ->
+  or_fold M (map (fun x (_ : unit) => solve_cond o ids x dq) (or_scratch ord L)) =
+  or_fold M (map (fun x (_ : unit) => solve_cond o ids x dq) L).
 Proof.
   intros ord L Hord Hwf Hnn.
   assert (Hnest : forall x, In x L -> is_nest x = false)
     by (intros x Hx; apply nn_not_nest; apply Hnn; exact Hx).
   apply or_fold_equiv.
   - intros y Hy. destruct (or_scratch_members ord L y Hy) as [Hs|Hin].
-    + apply (srch_shape y Hs).
+    + apply srch_wfc. exact Hs.
     + apply Hwf. exact Hin.
   - exact Hwf.
   - apply existsb_eq_iff. symmetry. apply scratch_iff; try exact Hnest.
@@ -856,98 +1000,102 @@ Qed.
 
 (* ---- the pass ---- *)
 Lemma collapse_sem : forall s L, is_and_or s = true ->
-  solve_body o (match L with [x] => x | _ => EGroup s L end) dq = solve_body o (EGroup s L) dq.
+  solve_cond o ids (match L with [x] => x | _ => EGroup s L end) dq = solve_cond o ids (EGroup s L) dq.
 Proof.
   intros s L Hs. destruct L as [|x [|x2 L]]; try reflexivity.
-  symmetry. apply sem_group_single. exact Hs.
+  symmetry. apply cs_group_single. exact Hs.
 Qed.
 
 Lemma h7x : forall ord fu e k, other_q e = true ->
-  solve_body o (shake1 ord fu e) dq = solve_body o e dq ->
-  solve_body o (EMatch k (shake1 ord fu e)) dq = solve_body o (EMatch k e) dq.
+  solve_cond o ids (shake1 ord fu e) dq = solve_cond o ids e dq ->
+  solve_cond o ids (EMatch k (shake1 ord fu e)) dq = solve_cond o ids (EMatch k e) dq.
 Proof.
   intros ord fu e k He H. pose proof (shake1_other_q ord fu e He) as He'.
   destruct k as [|n].
-  - rewrite !sb_all_other by assumption. exact H.
-  - rewrite !sb_of_other by assumption. rewrite H. reflexivity.
+  - rewrite !cs_all_other by assumption. exact H.
+  - rewrite !cs_of_other by assumption. rewrite H. reflexivity.
 Qed.
 
 Lemma shake1_exact_gen : forall ord, ord_keeps ord -> forall fuel e,
-  wf_body e = true -> no_nested e = true -> cmp_leaves e = true ->
-  solve_body o (shake1 ord fuel e) dq = solve_body o e dq.
+  wf_cond ids e = true -> no_nested e = true -> cmp_leaves e = true ->
+  solve_cond o ids (shake1 ord fuel e) dq = solve_cond o ids e dq.
 Proof.
   intros ord Hord. induction fuel as [|fu IH]; intros e Hw Hn Hc; [reflexivity|].
-  assert (Hmem : forall l, forallb wf_body l = true -> forallb no_nested l = true ->
+  assert (Hmem : forall l, forallb (wf_cond ids) l = true -> forallb no_nested l = true ->
             forallb cmp_leaves l = true ->
-            Forall2 (fun y x => (fun (y : expr) (_ : unit) => solve_body o y dq) y tt =
-                                (fun (x : expr) (_ : unit) => solve_body o x dq) x tt)
+            Forall2 (fun y x => (fun (y : expr) (_ : unit) => solve_cond o ids y dq) y tt =
+                                (fun (x : expr) (_ : unit) => solve_cond o ids x dq) x tt)
                     (map (shake1 ord fu) l) l).
   { intros l H1 H2 H3. apply Forall2_map_l. intros x Hx. cbn beta.
     apply IH; [apply (forallb_In _ _ _ H1 Hx)|apply (forallb_In _ _ _ H2 Hx)|apply (forallb_In _ _ _ H3 Hx)]. }
   destruct e as [s l|l s r|b|f m|f|z|i|z|k e|cols rows|e|f e| |s f c]; try discriminate Hw.
   - (* EGroup *)
-    cbn [wf_body no_nested cmp_leaves] in Hw, Hn, Hc.
+    cbn [wf_cond no_nested cmp_leaves] in Hw, Hn, Hc.
     apply andb_true_iff in Hw. destruct Hw as [Hs Hw].
     pose proof (Hmem l Hw Hn Hc) as HF2.
     set (L := map (shake1 ord fu) l) in *.
-    assert (HK : forall y, In y L -> no_nested y = true /\ wf_body y = true /\ cmp_leaves y = true).
+    assert (HK : forall y, In y L -> no_nested y = true /\ wf_cond ids y = true /\ cmp_leaves y = true).
     { intros y Hy. apply in_map_iff in Hy. destruct Hy as [x [<- Hx]].
-      destruct (shake1_keeps3 ord fu x (forallb_In _ _ _ Hn Hx)) as [K1 [K2 K3]].
-      split; [exact K1|]. split; [apply K2; apply (forallb_In _ _ _ Hw Hx)|apply K3; apply (forallb_In _ _ _ Hc Hx)]. }
+      destruct (shake1_keeps3 ord fu x (forallb_In _ _ _ Hn Hx)) as [K1 [_ K3]].
+      split; [exact K1|]. split; [|apply K3; apply (forallb_In _ _ _ Hc Hx)].
+      apply shake1_keeps_wfc; [apply (forallb_In _ _ _ Hn Hx)|apply (forallb_In _ _ _ Hw Hx)]. }
     destruct s; try discriminate Hs.
     + (* and *)
       rewrite shake1_and_eq by (intros y Hy; apply (HK y Hy)). fold L. cbv zeta.
-      rewrite collapse_sem by reflexivity. rewrite !sb_group_and. apply and_fold_F2. exact HF2.
+      rewrite collapse_sem by reflexivity. rewrite !cs_group_and. apply and_fold_F2. exact HF2.
     + (* or *)
       rewrite shake1_or_eq by (intros y Hy; apply (HK y Hy)). fold L. cbv zeta.
       set (Sc := or_scratch ord L).
-      assert (HSc : forall y, In y Sc -> no_nested y = true /\ wf_body y = true /\ cmp_leaves y = true).
+      assert (HSc : forall y, In y Sc -> no_nested y = true /\ wf_cond ids y = true /\ cmp_leaves y = true).
       { intros y Hy. destruct (or_scratch_members ord L y Hy) as [Hy'|Hy'].
-        - apply srch_shape. exact Hy'.
+        - destruct (srch_shape y Hy') as [A [_ C]]. split; [exact A|]. split; [apply srch_wfc; exact Hy'|exact C].
         - apply HK. exact Hy'. }
-      assert (E1 : solve_body o (EGroup BOr Sc) dq = solve_body o (EGroup BOr l) dq).
-      { rewrite !sb_group_or. unfold Sc. rewrite or_scratch_exact.
+      assert (E1 : solve_cond o ids (EGroup BOr Sc) dq = solve_cond o ids (EGroup BOr l) dq).
+      { rewrite !cs_group_or. unfold Sc. rewrite or_scratch_exact.
         - apply or_fold_F2. exact HF2.
         - exact Hord.
         - intros y Hy. apply (HK y Hy).
         - intros y Hy. apply (HK y Hy). }
       destruct (negb (length Sc =? length l)%nat).
       * rewrite IH; [exact E1| | |].
-        -- cbn [wf_body is_and_or_op andb]. apply forallb_forall. intros y Hy. apply (HSc y Hy).
+        -- cbn [wf_cond is_and_or_op andb]. apply forallb_forall. intros y Hy. apply (HSc y Hy).
         -- cbn [no_nested]. apply forallb_forall. intros y Hy. apply (HSc y Hy).
         -- cbn [cmp_leaves]. apply forallb_forall. intros y Hy. apply (HSc y Hy).
       * rewrite collapse_sem by reflexivity. exact E1.
   - (* EBexp *)
     cbn [shake1].
-    destruct s; cbn [wf_body is_and_or_op no_nested cmp_leaves is_and_or] in Hw, Hn, Hc;
+    destruct s; cbn [wf_cond is_and_or_op no_nested cmp_leaves is_and_or] in Hw, Hn, Hc;
       try (apply andb_true_iff in Hc; destruct Hc as [Hl Hr];
            apply negb_true_iff in Hl; apply negb_true_iff in Hr;
            rewrite (shake1_leaf ord fu l Hl), (shake1_leaf ord fu r Hr); reflexivity).
     + apply andb_true_iff in Hw. destruct Hw as [Hw1 Hw2].
       apply andb_true_iff in Hn. destruct Hn as [Hn1 Hn2].
       apply andb_true_iff in Hc. destruct Hc as [Hc1 Hc2].
-      rewrite !sb_bexp_and. unfold and2. rewrite (IH l Hw1 Hn1 Hc1), (IH r Hw2 Hn2 Hc2). reflexivity.
+      rewrite !cs_bexp_and. unfold and2. rewrite (IH l Hw1 Hn1 Hc1), (IH r Hw2 Hn2 Hc2). reflexivity.
     + apply andb_true_iff in Hw. destruct Hw as [Hw1 Hw2].
       apply andb_true_iff in Hn. destruct Hn as [Hn1 Hn2].
       apply andb_true_iff in Hc. destruct Hc as [Hc1 Hc2].
-      rewrite !sb_bexp_or. unfold or2. rewrite (IH l Hw1 Hn1 Hc1), (IH r Hw2 Hn2 Hc2). reflexivity.
+      rewrite !cs_bexp_or. unfold or2. rewrite (IH l Hw1 Hn1 Hc1), (IH r Hw2 Hn2 Hc2). reflexivity.
+  - (* EIdent *)
+    reflexivity.
   - (* EMatch *)
-    cbn [wf_body no_nested cmp_leaves] in Hw, Hn, Hc.
+    cbn [wf_cond no_nested cmp_leaves] in Hw, Hn, Hc.
     destruct e as [s l|l s r|b|f m|f|z|i|z|k0 e|cols rows|e|f e| |s f c]; try discriminate Hw.
-    + cbn [shake1]. cbn [wf_body no_nested cmp_leaves] in Hw, Hn, Hc.
+    + cbn [shake1]. cbn [wf_cond no_nested cmp_leaves] in Hw, Hn, Hc.
       apply andb_true_iff in Hw. destruct Hw as [Hs Hw].
       pose proof (Hmem l Hw Hn Hc) as HF2.
       destruct k as [|n].
-      * rewrite !sb_all_group. apply and_fold_F2. exact HF2.
-      * rewrite !sb_of_group. apply of_fold_F2. exact HF2.
+      * rewrite !cs_all_group. apply and_fold_F2. exact HF2.
+      * rewrite !cs_of_group. apply of_fold_F2. exact HF2.
     + cbn [shake1]. apply h7x; [reflexivity|apply IH; assumption].
+    + cbn [shake1]. rewrite shake1_ident. reflexivity.
     + cbn [shake1]. apply h7x; [reflexivity|apply IH; assumption].
     + cbn [shake1]. apply h7x; [reflexivity|apply IH; assumption].
     + discriminate Hn.
     + cbn [shake1]. rewrite shake1_search. reflexivity.
   - (* ENegate *)
-    cbn [shake1]. cbn [wf_body no_nested cmp_leaves] in Hw, Hn, Hc.
-    rewrite !sb_negate, (IH e Hw Hn Hc). reflexivity.
+    cbn [shake1]. cbn [wf_cond no_nested cmp_leaves] in Hw, Hn, Hc.
+    rewrite !cs_negate, (IH e Hw Hn Hc). reflexivity.
   - (* ENested *)
     discriminate Hn.
   - (* ESearch *)
@@ -990,7 +1138,10 @@ Lemma shake1_exact_flat_keeps : forall o ord fuel e (d : docq),
   ord_keeps ord -> C03.npd d ->
   wf_body e = true -> C01.no_nested e = true -> C01.cmp_leaves e = true ->
   solve_body o (shake1 ord fuel e) d = solve_body o e d.
-Proof. intros o ord fuel e d Hord Hd. apply (shake1_exact_gen o d Hd ord Hord). Qed.
+Proof.
+  intros o ord fuel e d Hord Hd Hw Hn Hc.
+  exact (shake1_exact_gen o [] eq_refl d Hd ord Hord fuel e (C03.wf_body_cond_nil e Hw) Hn Hc).
+Qed.
 
 Lemma shake1_exact_flat_alt : forall o ord fuel e (d : doc),
   (forall l, Permutation (ord l) l) ->
@@ -1137,6 +1288,764 @@ Proof.
   intros o ord e e' d Hord Hw Hn Hs Hdn Hx H.
   apply (shake_exact_flat_keeps o ord e e' (pure_doc d) (perm_ord_keeps ord Hord) (C03.npd_pure d)
            Hw Hn Hs Hdn Hx H).
+Qed.
+
+
+(* ====================================================================== *)
+(*  Part E: shake on conditions (identifiers are leaves), whole rules      *)
+(* ====================================================================== *)
+
+(* the invariant of C01.shake0_post, with identifiers as leaves and without nested blocks *)
+Fixpoint invc (e : expr) : bool :=
+  match e with
+  | EGroup s l => is_and_or s && match l with [] => false | _ => forallb invc l end
+  | EBexp l s r => if is_and_or s then invc l && invc r else leaf l && leaf r
+  | EMatch _ e' => quant_operand_ok e' && invc e'
+  | ENegate e' => negb (head_neg e') && invc e'
+  | ESearch _ _ _ | EIdent _ => true
+  | _ => false
+  end.
+
+Lemma invc_of : forall ids e n,
+  wf_cond ids e = true -> no_nested e = true -> sh0 e = true ->
+  exists_sub dneg_here n e = false -> shx e = true ->
+  invc e = true.
+Proof.
+  intros ids. induction e as [e IH] using size_ind. intros n Hwf Hnn Hsh Hdn Hx.
+  destruct e as [s l|l s r|b|f m|f|x|i|z|k e|cols rows|e|f e| |s f c];
+    try discriminate Hwf; try discriminate Hnn.
+  - cbn [wf_cond no_nested sh0 exists_sub shx invc dneg_here orb] in *.
+    apply andb_true_iff in Hwf. destruct Hwf as [Hs Hwf].
+    replace (is_and_or s) with true by (destruct s; try discriminate; reflexivity).
+    cbn [andb]. destruct l as [|a l']; [discriminate|].
+    apply forallb_intro. intros x Hin. apply (IH x) with (n := n).
+    + apply (size_member s _ x Hin).
+    + apply (forallb_In _ _ _ Hwf Hin).
+    + apply (forallb_In _ _ _ Hnn Hin).
+    + apply (forallb_In _ _ _ Hsh Hin).
+    + apply (existsb_false_In _ _ _ Hdn Hin).
+    + apply (forallb_In _ _ _ Hx Hin).
+  - cbn [wf_cond no_nested sh0 exists_sub shx invc dneg_here orb] in *.
+    replace (is_and_or_op s) with (is_and_or s) in Hwf by (destruct s; reflexivity).
+    destruct (is_and_or s); [|exact Hx].
+    apply andb_true_iff in Hwf. destruct Hwf as [H1 H2].
+    apply andb_true_iff in Hnn. destruct Hnn as [N1 N2].
+    apply andb_true_iff in Hsh. destruct Hsh as [H3 H4].
+    apply orb_false_iff in Hdn. destruct Hdn as [H5 H6].
+    apply andb_true_iff in Hx. destruct Hx as [H7 H8].
+    rewrite (IH l) with (n := n), (IH r) with (n := n); try assumption; try (cbn [expr_size]; lia).
+  - reflexivity.
+  - cbn [wf_cond no_nested sh0 shx invc] in *.
+    apply andb_true_iff in Hsh. destruct Hsh as [H3 H4]. rewrite H3. cbn [andb].
+    destruct k as [|c]; cbn [exists_sub dneg_here orb] in Hdn.
+    + apply (IH e) with (n := n); try assumption. cbn [expr_size]. lia.
+    + apply (IH e) with (n := (n || (c =? 0)%Z)); try assumption. cbn [expr_size]. lia.
+  - cbn [wf_cond no_nested sh0 exists_sub shx invc dneg_here] in *.
+    apply orb_false_iff in Hdn. destruct Hdn as [H5 H6]. rewrite H5. cbn [negb andb].
+    apply (IH e) with (n := true); try assumption. cbn [expr_size]. lia.
+  - reflexivity.
+Qed.
+
+Lemma invc_nn : forall e, invc e = true -> no_nested e = true.
+Proof.
+  induction e as [e IH] using size_ind. intros Hi.
+  destruct e as [s l|l s r|b|f m|f|z|i|z|k e|cols rows|e|f e| |s f c]; try discriminate Hi;
+    try reflexivity; cbn [invc no_nested] in *.
+  - apply andb_true_iff in Hi. destruct Hi as [Hs Hl].
+    destruct l as [|a l']; [discriminate|].
+    apply forallb_intro. intros x Hx. apply IH; [apply (size_member s _ x Hx)|apply (forallb_In _ _ _ Hl Hx)].
+  - destruct (is_and_or s).
+    + apply andb_true_iff in Hi. destruct Hi as [H1 H2].
+      rewrite (IH l), (IH r); try assumption; try reflexivity; cbn [expr_size]; lia.
+    + apply andb_true_iff in Hi. destruct Hi as [H1 H2]. unfold leaf in *.
+      apply negb_true_iff in H1. apply negb_true_iff in H2.
+      destruct l; try discriminate H1; destruct r; try discriminate H2; reflexivity.
+  - apply andb_true_iff in Hi. destruct Hi as [_ Hi]. apply IH; [cbn [expr_size]; lia|exact Hi].
+  - apply andb_true_iff in Hi. destruct Hi as [_ Hi]. apply IH; [cbn [expr_size]; lia|exact Hi].
+Qed.
+
+Lemma invc_cl : forall e, invc e = true -> cmp_leaves e = true.
+Proof.
+  induction e as [e IH] using size_ind. intros Hi.
+  destruct e as [s l|l s r|b|f m|f|z|i|z|k e|cols rows|e|f e| |s f c]; try discriminate Hi;
+    try reflexivity; cbn [invc cmp_leaves] in *.
+  - apply andb_true_iff in Hi. destruct Hi as [Hs Hl].
+    destruct l as [|a l']; [discriminate|].
+    apply forallb_intro. intros x Hx. apply IH; [apply (size_member s _ x Hx)|apply (forallb_In _ _ _ Hl Hx)].
+  - destruct (is_and_or s); [|exact Hi].
+    apply andb_true_iff in Hi. destruct Hi as [H1 H2].
+    rewrite (IH l), (IH r); try assumption; try reflexivity; cbn [expr_size]; lia.
+  - apply andb_true_iff in Hi. destruct Hi as [_ Hi]. apply IH; [cbn [expr_size]; lia|exact Hi].
+  - apply andb_true_iff in Hi. destruct Hi as [_ Hi]. apply IH; [cbn [expr_size]; lia|exact Hi].
+Qed.
+
+Lemma invc_group : forall s a, invc (EGroup s a) = true ->
+  is_and_or s = true /\ forallb invc a = true /\ exists a1 a', a = a1 :: a'.
+Proof.
+  intros s a H. cbn [invc] in H. apply andb_true_iff in H. destruct H as [Hs H].
+  destruct a as [|a1 a']; [discriminate|]. eauto.
+Qed.
+
+Lemma invc_group_intro : forall s a, is_and_or s = true -> forallb invc a = true -> a <> [] ->
+  invc (EGroup s a) = true.
+Proof.
+  intros s a Hs Ha Hne. cbn [invc]. rewrite Hs. destruct a; [congruence|exact Ha].
+Qed.
+
+(* shake_0 keeps the known identifiers *)
+Lemma flat_wfc : forall ids s l' r' L, is_and_or s = true -> flat s l' r' = Some L ->
+  wf_cond ids l' = true -> wf_cond ids r' = true -> wf_cond ids (EGroup s L) = true.
+Proof.
+  intros ids s l' r' L Hs Hf Hl Hr.
+  assert (Hso : is_and_or_op s = true) by (destruct s; try discriminate; reflexivity).
+  cbn [wf_cond]. rewrite Hso. cbn [andb]. unfold flat in Hf.
+  destruct (grp s l') as [a|] eqn:G1; destruct (grp s r') as [b|] eqn:G2.
+  - injection Hf as <-. apply grp_some in G1. apply grp_some in G2. subst l' r'.
+    cbn [wf_cond] in Hl, Hr. rewrite Hso in Hl, Hr. cbn [andb] in Hl, Hr.
+    rewrite forallb_app, Hl, Hr. reflexivity.
+  - injection Hf as <-. apply grp_some in G1. subst l'.
+    cbn [wf_cond] in Hl. rewrite Hso in Hl. cbn [andb] in Hl.
+    rewrite forallb_app, Hl. cbn [forallb]. rewrite Hr. reflexivity.
+  - injection Hf as <-. apply grp_some in G2. subst r'.
+    cbn [wf_cond] in Hr. rewrite Hso in Hr. cbn [andb] in Hr.
+    cbn [forallb]. rewrite Hl, Hr. reflexivity.
+  - destruct (bx s l') as [[x y]|] eqn:B1.
+    + injection Hf as <-. apply bx_some in B1. subst l'. cbn [wf_cond] in Hl. rewrite Hso in Hl.
+      apply andb_true_iff in Hl. destruct Hl as [Hx Hy]. cbn [forallb]. rewrite Hx, Hy, Hr. reflexivity.
+    + destruct (bx s r') as [[y z]|] eqn:B2; [|discriminate].
+      injection Hf as <-. apply bx_some in B2. subst r'. cbn [wf_cond] in Hr. rewrite Hso in Hr.
+      apply andb_true_iff in Hr. destruct Hr as [Hy Hz]. cbn [forallb]. rewrite Hl, Hy, Hz. reflexivity.
+Qed.
+
+Lemma shake0_wfc : forall ids fuel e e',
+  wf_cond ids e = true -> shake0 fuel e = Ok e' -> wf_cond ids e' = true.
+Proof.
+  intros ids. induction fuel as [|fu IH]; intros e e' Hn H; [injection H as <-; exact Hn|].
+  destruct e as [s l|l s r|b|f m|f|z|i|z|k e|cols rows|e|f e| |s f c];
+    try (injection H as <-; exact Hn).
+  - cbn [shake0] in H. destruct (negb (is_and_or s)); [discriminate|].
+    apply bind_ok_inv in H. destruct H as [l' [Hl' H]].
+    pose proof (mapM_Forall2 _ _ _ Hl') as HF. cbn [wf_cond] in Hn.
+    apply andb_true_iff in Hn. destruct Hn as [Hs Hn].
+    assert (Hl'n : forallb (wf_cond ids) l' = true).
+    { eapply Forall2_forallb; [exact HF|]. intros x y Hx Hxy. cbn beta in Hxy.
+      apply (IH x y); [apply (forallb_In _ _ _ Hn Hx)|exact Hxy]. }
+    destruct l' as [|x [|x2 l'']]; injection H as <-; cbn [wf_cond]; try (rewrite Hs; exact Hl'n).
+    cbn [forallb] in Hl'n. apply andb_true_iff in Hl'n. apply Hl'n.
+  - destruct (is_and_or s) eqn:Hs.
+    + assert (Hso : is_and_or_op s = true) by (destruct s; try discriminate; reflexivity).
+      cbn [wf_cond] in Hn. rewrite Hso in Hn. apply andb_true_iff in Hn. destruct Hn as [Hl Hr].
+      rewrite shake0_bexp_andor in H by exact Hs.
+      apply bind_ok_inv in H. destruct H as [l' [Hl' H]].
+      apply bind_ok_inv in H. destruct H as [r' [Hr' H]].
+      pose proof (IH l l' Hl Hl') as Hl'n. pose proof (IH r r' Hr Hr') as Hr'n.
+      destruct (flat s l' r') as [L|] eqn:Hflat.
+      * apply (IH (EGroup s L) e' (flat_wfc ids s l' r' L Hs Hflat Hl'n Hr'n) H).
+      * injection H as <-. cbn [wf_cond]. rewrite Hso, Hl'n, Hr'n. reflexivity.
+    + assert (Hso : is_and_or_op s = false) by (destruct s; try discriminate; reflexivity).
+      rewrite shake0_bexp_cmp in H by exact Hs.
+      apply bind_ok_inv in H. destruct H as [l' [Hl' H]].
+      apply bind_ok_inv in H. destruct H as [r' [Hr' H]]. injection H as <-.
+      cbn [wf_cond]. rewrite Hso. reflexivity.
+  - cbn [shake0] in H. apply bind_ok_inv in H. destruct H as [x [Hx H]]. injection H as <-.
+    cbn [wf_cond] in *. apply (IH e x Hn Hx).
+  - cbn [shake0] in H. apply bind_ok_inv in H. destruct H as [x [Hx H]].
+    cbn [wf_cond] in Hn. pose proof (IH e x Hn Hx) as Hxn.
+    destruct x; try (injection H as <-; exact Hxn).
+    apply (IH x e' Hxn H).
+  - cbn [shake0] in H. apply bind_ok_inv in H. destruct H as [x [Hx H]]. injection H as <-.
+    cbn [wf_cond] in *. apply (IH e x Hn Hx).
+Qed.
+
+Section CondShake.
+Variable o : oracles.
+Variable ids : list (str * expr).
+Local Notation slv := (solve_cond o ids).
+
+Lemma semc_bexp_cong : forall l l' s r r', is_and_or s = true ->
+  (forall d, slv l' d = slv l d) ->
+  (forall d, slv r' d = slv r d) ->
+  forall d, slv (EBexp l' s r') d = slv (EBexp l s r) d.
+Proof.
+  intros l l' s r r' Hs Hl Hr d. destruct s; try discriminate.
+  - rewrite !cs_bexp_and. unfold and2. rewrite Hl, Hr. reflexivity.
+  - rewrite !cs_bexp_or. unfold or2. rewrite Hl, Hr. reflexivity.
+Qed.
+
+Definition semc_members (l l' : list expr) : Prop :=
+  Forall2 (fun m m' => forall d, slv m' d = slv m d) l l'.
+
+Lemma semc_members_F2 : forall l l' d, semc_members l l' ->
+  Forall2 (fun y x => (fun (y : expr) (_ : unit) => slv y d) y tt =
+                      (fun (x : expr) (_ : unit) => slv x d) x tt) l' l.
+Proof.
+  intros l l' d H. apply Forall2_flip'. eapply Forall2_In_impl; [exact H|].
+  intros x y _ _ Hxy. apply Hxy.
+Qed.
+
+Lemma semc_group_cong : forall s l l' d, is_and_or s = true -> semc_members l l' ->
+  slv (EGroup s l') d = slv (EGroup s l) d.
+Proof.
+  intros s l l' d Hs H. destruct s; try discriminate.
+  - rewrite !cs_group_and. apply and_fold_F2. apply semc_members_F2. exact H.
+  - rewrite !cs_group_or. apply or_fold_F2. apply semc_members_F2. exact H.
+Qed.
+
+Lemma semc_match_group_cong : forall k s l l' d, semc_members l l' ->
+  slv (EMatch k (EGroup s l')) d = slv (EMatch k (EGroup s l)) d.
+Proof.
+  intros [|n] s l l' d H.
+  - rewrite !cs_all_group. apply and_fold_F2. apply semc_members_F2. exact H.
+  - rewrite !cs_of_group. apply of_fold_F2. apply semc_members_F2. exact H.
+Qed.
+
+Lemma semc_members_refl : forall l, semc_members l l.
+Proof. induction l; constructor; auto. Qed.
+
+Lemma flatc_spec : forall s l' r' L, is_and_or s = true -> invc l' = true -> invc r' = true ->
+  flat s l' r' = Some L ->
+  invc (EGroup s L) = true /\ long L /\
+  forall d, slv (EGroup s L) d = slv (EBexp l' s r') d.
+Proof.
+  intros s l' r' L Hs Hl Hr Hf. unfold flat in Hf.
+  destruct (grp s l') as [a|] eqn:G1; destruct (grp s r') as [b|] eqn:G2.
+  - injection Hf as <-. apply grp_some in G1. apply grp_some in G2. subst l' r'.
+    destruct (invc_group s a Hl) as [_ [Ha [a1 [a' ->]]]].
+    destruct (invc_group s b Hr) as [_ [Hb [b1 [b' ->]]]].
+    split; [|split].
+    + apply invc_group_intro; [exact Hs| |discriminate]. rewrite forallb_app, Ha, Hb. reflexivity.
+    + destruct a' as [|a2 a']; cbn [app]; unfold long; eauto.
+    + intros d. destruct s; try discriminate.
+      * rewrite cs_bexp_and, and2_fold.
+        rewrite (and_inline0 _ (map (fun x (_ : unit) => slv x d) (a1 :: a')) _ (cs_group_and o ids _ d)).
+        cbn [app].
+        rewrite (and_inline _ _ (map (fun x (_ : unit) => slv x d) (b1 :: b')) [] (cs_group_and o ids _ d)).
+        rewrite app_nil_r, <- map_app. apply cs_group_and.
+      * rewrite cs_bexp_or, or2_fold.
+        rewrite (or_inline0 _ (map (fun x (_ : unit) => slv x d) (a1 :: a')) _ (cs_group_or o ids _ d)).
+        cbn [app].
+        rewrite (or_inlineM _ _ (map (fun x (_ : unit) => slv x d) (b1 :: b')) [] (cs_group_or o ids _ d)).
+        rewrite app_nil_r, <- map_app. apply cs_group_or.
+  - injection Hf as <-. apply grp_some in G1. subst l'.
+    destruct (invc_group s a Hl) as [_ [Ha [a1 [a' ->]]]].
+    split; [|split].
+    + apply invc_group_intro; [exact Hs| |discriminate].
+      rewrite forallb_app, Ha. cbn [forallb]. rewrite Hr. reflexivity.
+    + destruct a' as [|a2 a']; cbn [app]; unfold long; eauto.
+    + intros d. destruct s; try discriminate.
+      * rewrite cs_bexp_and, and2_fold.
+        rewrite (and_inline0 _ (map (fun x (_ : unit) => slv x d) (a1 :: a')) _ (cs_group_and o ids _ d)).
+        rewrite cs_group_and, map_app. reflexivity.
+      * rewrite cs_bexp_or, or2_fold.
+        rewrite (or_inline0 _ (map (fun x (_ : unit) => slv x d) (a1 :: a')) _ (cs_group_or o ids _ d)).
+        rewrite cs_group_or, map_app. reflexivity.
+  - injection Hf as <-. apply grp_some in G2. subst r'.
+    destruct (invc_group s b Hr) as [_ [Hb [b1 [b' ->]]]].
+    split; [|split].
+    + apply invc_group_intro; [exact Hs| |discriminate]. cbn [forallb]. rewrite Hl. exact Hb.
+    + unfold long; eauto.
+    + intros d. destruct s; try discriminate.
+      * rewrite cs_bexp_and, and2_fold.
+        rewrite (and_inline1 _ _ (map (fun x (_ : unit) => slv x d) (b1 :: b')) [] (cs_group_and o ids _ d)).
+        rewrite app_nil_r. apply cs_group_and.
+      * rewrite cs_bexp_or, or2_fold.
+        rewrite (or_inline1 _ _ (map (fun x (_ : unit) => slv x d) (b1 :: b')) [] (cs_group_or o ids _ d)).
+        rewrite app_nil_r. apply cs_group_or.
+  - destruct (bx s l') as [[x y]|] eqn:B1.
+    + injection Hf as <-. apply bx_some in B1. subst l'.
+      cbn [invc] in Hl. rewrite Hs in Hl. apply andb_true_iff in Hl. destruct Hl as [Hx Hy].
+      split; [|split].
+      * apply invc_group_intro; [exact Hs| |discriminate]. cbn [forallb]. rewrite Hx, Hy, Hr. reflexivity.
+      * unfold long; eauto.
+      * intros d. destruct s; try discriminate.
+        -- rewrite cs_bexp_and, and2_fold.
+           rewrite (and_inline0 _ [fun _ => slv x d; fun _ => slv y d] _
+                      (eq_trans (cs_bexp_and o ids x y d) (and2_fold _ _))).
+           apply cs_group_and.
+        -- rewrite cs_bexp_or, or2_fold.
+           rewrite (or_inline0 _ [fun _ => slv x d; fun _ => slv y d] _
+                      (eq_trans (cs_bexp_or o ids x y d) (or2_fold _ _))).
+           apply cs_group_or.
+    + destruct (bx s r') as [[y z]|] eqn:B2; [|discriminate].
+      injection Hf as <-. apply bx_some in B2. subst r'.
+      cbn [invc] in Hr. rewrite Hs in Hr. apply andb_true_iff in Hr. destruct Hr as [Hy Hz].
+      split; [|split].
+      * apply invc_group_intro; [exact Hs| |discriminate]. cbn [forallb]. rewrite Hl, Hy, Hz. reflexivity.
+      * unfold long; eauto.
+      * intros d. destruct s; try discriminate.
+        -- rewrite cs_bexp_and, and2_fold.
+           rewrite (and_inline1 _ _ [fun _ => slv y d; fun _ => slv z d] []
+                      (eq_trans (cs_bexp_and o ids y z d) (and2_fold _ _))).
+           apply cs_group_and.
+        -- rewrite cs_bexp_or, or2_fold.
+           rewrite (or_inline1 _ _ [fun _ => slv y d; fun _ => slv z d] []
+                      (eq_trans (cs_bexp_or o ids y z d) (or2_fold _ _))).
+           apply cs_group_or.
+Qed.
+
+(* what one run of shake_0 guarantees *)
+Definition postc (e e' : expr) : Prop :=
+  invc e' = true /\
+  (head_neg e' = true -> head_neg e = true) /\
+  (quant_operand_ok e = true -> quant_operand_ok e' = true) /\
+  (forall d, slv e' d = slv e d) /\
+  (forall s l, e = EGroup s l -> length l <> 1%nat ->
+               exists l', e' = EGroup s l' /\ semc_members l l') /\
+  (forall k d, quant_operand_ok e = true ->
+               slv (EMatch k e') d = slv (EMatch k e) d).
+
+Ltac split_postc :=
+  unfold postc; (split; [|split; [|split; [|split; [|split]]]]).
+
+Lemma postc_refl : forall e, invc e = true -> postc e e.
+Proof.
+  intros e Hi. split_postc; auto.
+  intros s l -> _. exists l. split; [reflexivity|apply semc_members_refl].
+Qed.
+
+Lemma shake0_postc : forall fuel e e', invc e = true -> shake0 fuel e = Ok e' -> postc e e'.
+Proof.
+  induction fuel as [|fu IH]; intros e e' Hi H.
+  { injection H as <-. apply postc_refl. exact Hi. }
+  destruct e as [s l|l s r|b|f m|f|x|i|z|k e|cols rows|e|f e| |s f c]; try discriminate.
+  - (* ---------------- EGroup ---------------- *)
+    destruct (invc_group s l Hi) as [Hs [Hl [y1 [l0 El]]]].
+    cbn [shake0] in H. rewrite Hs in H. cbn [negb] in H.
+    apply bind_ok_inv in H. destruct H as [l' [Hl' H]].
+    pose proof (mapM_Forall2 _ _ _ Hl') as HF.
+    assert (HP : Forall2 postc l l').
+    { eapply Forall2_In_impl; [exact HF|]. intros x y Hx _ Hxy. cbn beta in Hxy.
+      apply IH; [|exact Hxy]. apply (forallb_In _ _ _ Hl Hx). }
+    assert (Hil' : forallb invc l' = true).
+    { eapply Forall2_forallb; [exact HP|]. intros x y _ Hp. apply Hp. }
+    assert (Hsm : semc_members l l').
+    { eapply Forall2_In_impl; [exact HP|]. intros x y _ _ Hp. apply Hp. }
+    subst l. destruct l0 as [|y2 l0].
+    + (* one member: unwrapped *)
+      inversion HP as [|a b la lb Hp1 Hrest]; subst. inversion Hrest; subst.
+      injection H as <-. clear HP Hrest HF.
+      destruct Hp1 as [P1 [P2 [P4 [P6 [P7 P8]]]]].
+      split_postc.
+      * exact P1.
+      * exact P2.
+      * intros Hq. discriminate Hq.
+      * intros d. rewrite P6. symmetry. apply cs_group_single. exact Hs.
+      * intros s0 l1 E Hlen. injection E as <- <-. cbn in Hlen. lia.
+      * intros k d Hq. discriminate Hq.
+    + (* two or more members *)
+      inversion HP as [|a b la lb Hp1 Hrest]; subst.
+      inversion Hrest as [|a2 b2 la2 lb2 Hp2 Hrest2]; subst.
+      injection H as <-.
+      assert (Hi' : invc (EGroup s (b :: b2 :: lb2)) = true)
+        by (apply invc_group_intro; [exact Hs|exact Hil'|discriminate]).
+      split_postc.
+      * exact Hi'.
+      * intros Hc. discriminate Hc.
+      * intros _. reflexivity.
+      * intros d. apply semc_group_cong; assumption.
+      * intros s0 l1 E _. injection E as <- <-. eexists. split; [reflexivity|exact Hsm].
+      * intros k d _. apply semc_match_group_cong. exact Hsm.
+  - (* ---------------- EBexp ---------------- *)
+    assert (Hi0 := Hi). cbn [invc] in Hi. destruct (is_and_or s) eqn:Hs.
+    + apply andb_true_iff in Hi. destruct Hi as [Hil Hir].
+      rewrite shake0_bexp_andor in H by exact Hs.
+      apply bind_ok_inv in H. destruct H as [l' [Hl' H]].
+      apply bind_ok_inv in H. destruct H as [r' [Hr' H]].
+      pose proof (IH l l' Hil Hl') as Pl. pose proof (IH r r' Hir Hr') as Pr.
+      assert (Hil' : invc l' = true) by apply Pl.
+      assert (Hir' : invc r' = true) by apply Pr.
+      assert (Hsl : forall d, slv l' d = slv l d) by apply Pl.
+      assert (Hsr : forall d, slv r' d = slv r d) by apply Pr.
+      pose proof (semc_bexp_cong l l' s r r' Hs Hsl Hsr) as Hcong.
+      pose proof (qok_andor_false l s r Hs) as Hq.
+      destruct (flat s l' r') as [L|] eqn:Hflat.
+      * destruct (flatc_spec s l' r' L Hs Hil' Hir' Hflat) as [HiL [Hlong HsL]].
+        destruct (long_heads s L Hlong) as [Hn1 [Hn2 [Hn3 Hn4]]].
+        destruct (IH _ _ HiL H) as [P1 [P2 [P4 [P6 [P7 P8]]]]].
+        assert (Hsem : forall d, slv e' d = slv (EBexp l s r) d).
+        { intros d. rewrite P6, HsL. apply Hcong. }
+        split_postc.
+        -- exact P1.
+        -- intros Hc. rewrite (P2 Hc) in Hn1. discriminate.
+        -- intros Hc. rewrite Hc in Hq. discriminate.
+        -- exact Hsem.
+        -- intros s0 l0 E. discriminate E.
+        -- intros k d Hc. rewrite Hc in Hq. discriminate.
+      * injection H as <-.
+        assert (Hi' : invc (EBexp l' s r') = true) by (cbn [invc]; rewrite Hs, Hil', Hir'; reflexivity).
+        split_postc.
+        -- exact Hi'.
+        -- intros Hc. discriminate Hc.
+        -- intros Hc. rewrite Hc in Hq. discriminate.
+        -- exact Hcong.
+        -- intros s0 l0 E. discriminate E.
+        -- intros k d Hc. rewrite Hc in Hq. discriminate.
+    + apply andb_true_iff in Hi. destruct Hi as [Hll Hlr].
+      rewrite shake0_bexp_cmp in H by exact Hs.
+      rewrite (shake0_leaf fu l Hll), (shake0_leaf fu r Hlr) in H. cbn [bind] in H.
+      injection H as <-. apply postc_refl. exact Hi0.
+  - (* ---------------- EIdent ---------------- *)
+    injection H as <-. apply postc_refl. exact Hi.
+  - (* ---------------- EMatch ---------------- *)
+    assert (Hi0 := Hi). cbn [invc] in Hi. apply andb_true_iff in Hi. destruct Hi as [Hq Hie].
+    cbn [shake0] in H. apply bind_ok_inv in H. destruct H as [x [Hx H]]. injection H as <-.
+    destruct (IH e x Hie Hx) as [P1 [P2 [P4 [P6 [P7 P8]]]]].
+    assert (Hi' : invc (EMatch k x) = true) by (cbn [invc]; rewrite (P4 Hq), P1; reflexivity).
+    assert (Hsem : forall d, slv (EMatch k x) d = slv (EMatch k e) d)
+      by (intros d; apply P8; exact Hq).
+    split_postc.
+    + exact Hi'.
+    + intros Hc. discriminate Hc.
+    + intros _. reflexivity.
+    + exact Hsem.
+    + intros s l E. discriminate E.
+    + intros k2 d _. apply (h7c o ids); try reflexivity. exact Hsem.
+  - (* ---------------- ENegate ---------------- *)
+    assert (Hi0 := Hi). cbn [invc] in Hi. apply andb_true_iff in Hi. destruct Hi as [Hhn Hie].
+    apply negb_true_iff in Hhn.
+    cbn [shake0] in H. apply bind_ok_inv in H. destruct H as [x [Hx H]].
+    destruct (IH e x Hie Hx) as [P1 [P2 [P4 [P6 [P7 P8]]]]].
+    assert (Hhx : head_neg x = false).
+    { destruct (head_neg x) eqn:Hb; [|reflexivity]. rewrite (P2 eq_refl) in Hhn. discriminate. }
+    assert (E : e' = ENegate x).
+    { destruct x; try (injection H as <-; reflexivity). discriminate Hhx. }
+    subst e'. clear H.
+    assert (Hi' : invc (ENegate x) = true) by (cbn [invc]; rewrite Hhx, P1; reflexivity).
+    assert (Hsem : forall d, slv (ENegate x) d = slv (ENegate e) d)
+      by (intros d; rewrite !cs_negate, P6; reflexivity).
+    split_postc.
+    + exact Hi'.
+    + intros _. reflexivity.
+    + intros _. reflexivity.
+    + exact Hsem.
+    + intros s l E. discriminate E.
+    + intros k d _. apply (h7c o ids); try reflexivity. exact Hsem.
+  - (* ---------------- ESearch ---------------- *)
+    injection H as <-. apply postc_refl. exact Hi.
+Qed.
+
+(* shake_0 does not panic on such trees *)
+Lemma shake0_totalc : forall fuel e, invc e = true -> exists e', shake0 fuel e = Ok e'.
+Proof.
+  induction fuel as [|fu IH]; intros e Hi; [eexists; reflexivity|].
+  destruct e as [s l|l s r|b|f m|f|x|i|z|k e|cols rows|e|f e| |s f c]; try discriminate Hi;
+    try (eexists; reflexivity).
+  - destruct (invc_group s l Hi) as [Hs [Hl _]].
+    cbn [shake0]. rewrite Hs. cbn [negb].
+    destruct (mapM_ok (fun x => shake0 fu x) l) as [l' Hl'].
+    { intros x Hx. apply IH. apply (forallb_In _ _ _ Hl Hx). }
+    rewrite Hl'. cbn [bind]. destruct l' as [|x [|x2 l'']]; eexists; reflexivity.
+  - cbn [invc] in Hi. destruct (is_and_or s) eqn:Hs.
+    + apply andb_true_iff in Hi. destruct Hi as [Hil Hir].
+      rewrite shake0_bexp_andor by exact Hs.
+      destruct (IH l Hil) as [l' Hl']. destruct (IH r Hir) as [r' Hr'].
+      rewrite Hl', Hr'. cbn [bind].
+      destruct (flat s l' r') as [L|] eqn:Hflat; [|eexists; reflexivity].
+      assert (Hil' : invc l' = true) by apply (shake0_postc fu l l' Hil Hl').
+      assert (Hir' : invc r' = true) by apply (shake0_postc fu r r' Hir Hr').
+      destruct (flatc_spec s l' r' L Hs Hil' Hir' Hflat) as [HiL _].
+      apply IH. exact HiL.
+    + apply andb_true_iff in Hi. destruct Hi as [Hll Hlr].
+      rewrite shake0_bexp_cmp by exact Hs.
+      rewrite (shake0_leaf fu l Hll), (shake0_leaf fu r Hlr). cbn [bind]. eexists; reflexivity.
+  - cbn [invc] in Hi. apply andb_true_iff in Hi. destruct Hi as [_ Hie].
+    destruct (IH e Hie) as [x Hx]. cbn [shake0]. rewrite Hx. cbn [bind]. eexists; reflexivity.
+  - cbn [invc] in Hi. apply andb_true_iff in Hi. destruct Hi as [_ Hie].
+    destruct (IH e Hie) as [x Hx]. cbn [shake0]. rewrite Hx. cbn [bind].
+    assert (P1 : invc x = true) by apply (shake0_postc fu e x Hie Hx).
+    destruct x; try (eexists; reflexivity).
+    apply IH. cbn [invc] in P1. apply andb_true_iff in P1. apply P1.
+Qed.
+End CondShake.
+
+
+(* ---- changing the identifier table under a condition that does not count members ---- *)
+Fixpoint no_quant_ident (e : expr) : bool :=
+  match e with
+  | EGroup _ l => forallb no_quant_ident l
+  | EBexp l _ r => no_quant_ident l && no_quant_ident r
+  | EMatch _ (EIdent _) => false
+  | EMatch _ e' | ENegate e' | ENested _ e' => no_quant_ident e'
+  | _ => true
+  end.
+Definition shake_input_ok (o : oracles) (sw : switches) (dt : detection) : bool :=
+  forallb (fun t => C01.no_nested t && C01.sh0 t && C01.no_dneg t && C01.shx t)
+          (all_trees (staged sw dt)).
+
+Definition ids_rel (R : expr -> expr -> Prop) (ids ids' : list (str * expr)) : Prop :=
+  forall i, match lookup i ids, lookup i ids' with
+            | Some b, Some b' => R b b'
+            | None, None => True
+            | _, _ => False
+            end.
+
+Lemma Forall2_diag : forall {A} (R : A -> A -> Prop) l, (forall x, In x l -> R x x) -> Forall2 R l l.
+Proof.
+  intros A R. induction l as [|x l IH]; intros H; constructor.
+  - apply H. left. reflexivity.
+  - apply IH. intros y Hy. apply H. right. exact Hy.
+Qed.
+
+Lemma h7_ids : forall o ids ids' e (d : docq), other_q e = true ->
+  solve_cond o ids' e d = solve_cond o ids e d ->
+  forall k, solve_cond o ids' (EMatch k e) d = solve_cond o ids (EMatch k e) d.
+Proof.
+  intros o ids ids' e d He H [|n].
+  - rewrite !cs_all_other by exact He. exact H.
+  - rewrite !cs_of_other by exact He. rewrite H. reflexivity.
+Qed.
+
+Lemma solve_ids_change : forall o ids ids' (d : docq),
+  ids_rel (fun b b' => solve_body o b' d = solve_body o b d) ids ids' ->
+  forall e, wf_cond ids e = true -> no_nested e = true -> no_quant_ident e = true ->
+  solve_cond o ids' e d = solve_cond o ids e d.
+Proof.
+  intros o ids ids' d Hrel. induction e as [e IH] using size_ind. intros Hw Hn Hq.
+  assert (Hmem : forall l, (forall x, In x l -> (expr_size x < expr_size e)%nat) ->
+            forallb (wf_cond ids) l = true -> forallb no_nested l = true ->
+            forallb no_quant_ident l = true ->
+            Forall2 (fun y x => (fun (y : expr) (_ : unit) => solve_cond o ids' y d) y tt =
+                                (fun (x : expr) (_ : unit) => solve_cond o ids x d) x tt) l l).
+  { intros l Hsz H1 H2 H3. apply Forall2_diag. intros x Hx. cbn beta.
+    apply IH; [apply Hsz; exact Hx|apply (forallb_In _ _ _ H1 Hx)|apply (forallb_In _ _ _ H2 Hx)
+              |apply (forallb_In _ _ _ H3 Hx)]. }
+  destruct e as [s l|l s r|b|f m|f|z|i|z|k e|cols rows|e|f e| |s f c]; try discriminate Hw.
+  - (* EGroup *)
+    cbn [wf_cond no_nested no_quant_ident] in Hw, Hn, Hq.
+    apply andb_true_iff in Hw. destruct Hw as [Hs Hw].
+    pose proof (Hmem l (fun x Hx => size_member s l x Hx) Hw Hn Hq) as HF.
+    destruct s; try discriminate Hs.
+    + rewrite !cs_group_and. apply and_fold_F2. exact HF.
+    + rewrite !cs_group_or. apply or_fold_F2. exact HF.
+  - (* EBexp *)
+    destruct s; try reflexivity; cbn [wf_cond is_and_or_op no_nested no_quant_ident] in Hw, Hn, Hq;
+      apply andb_true_iff in Hw; destruct Hw as [Hw1 Hw2];
+      apply andb_true_iff in Hn; destruct Hn as [Hn1 Hn2];
+      apply andb_true_iff in Hq; destruct Hq as [Hq1 Hq2].
+    + rewrite !cs_bexp_and. unfold and2.
+      rewrite (IH l), (IH r); try assumption; try reflexivity; cbn [expr_size]; lia.
+    + rewrite !cs_bexp_or. unfold or2.
+      rewrite (IH l), (IH r); try assumption; try reflexivity; cbn [expr_size]; lia.
+  - (* EIdent *)
+    unfold solve_cond. cbn [solve]. specialize (Hrel i).
+    destruct (lookup i ids), (lookup i ids'); try contradiction; [exact Hrel|reflexivity].
+  - (* EMatch *)
+    destruct e as [s l|l s r|b|f m|f|z|i|z|k0 e|cols rows|e|f e| |s f c]; try discriminate Hw;
+      try discriminate Hn; try discriminate Hq.
+    + cbn [wf_cond no_nested no_quant_ident] in Hw, Hn, Hq.
+      apply andb_true_iff in Hw. destruct Hw as [Hs Hw].
+      assert (HF := Hmem l ltac:(intros x Hx; pose proof (size_member s l x Hx); cbn [expr_size] in *; lia) Hw Hn Hq).
+      destruct k as [|n].
+      * rewrite !cs_all_group. apply and_fold_F2. exact HF.
+      * rewrite !cs_of_group. apply of_fold_F2. exact HF.
+    + apply h7_ids; [reflexivity|]. apply IH; [cbn [expr_size]; lia|exact Hw|exact Hn|exact Hq].
+    + apply h7_ids; [reflexivity|]. apply IH; [cbn [expr_size]; lia|exact Hw|exact Hn|exact Hq].
+    + apply h7_ids; [reflexivity|]. apply IH; [cbn [expr_size]; lia|exact Hw|exact Hn|exact Hq].
+    + destruct k; destruct s; reflexivity.
+  - (* ENegate *)
+    cbn [wf_cond no_nested no_quant_ident] in Hw, Hn, Hq.
+    rewrite !cs_negate, (IH e); try assumption; try reflexivity. cbn [expr_size]. lia.
+  - (* ENested *)
+    discriminate Hn.
+  - (* ESearch *)
+    reflexivity.
+Qed.
+
+Lemma map_ids_F2 : forall (f : expr -> out expr) ids ids', map_ids f ids = Ok ids' ->
+  Forall2 (fun kv kv' => fst kv' = fst kv /\ f (snd kv) = Ok (snd kv')) ids ids'.
+Proof.
+  intros f ids ids' H. unfold map_ids in H. apply mapM_Forall2 in H.
+  eapply Forall2_In_impl; [exact H|]. intros [k b] [k' b'] _ _ Hxy. cbn beta in Hxy.
+  cbn [fst snd] in *. apply bind_ok_inv in Hxy. destruct Hxy as [e [He Hxy]].
+  injection Hxy as <- <-. auto.
+Qed.
+
+Lemma map_ids_ok : forall (f : expr -> out expr) ids,
+  (forall kv, In kv ids -> exists b, f (snd kv) = Ok b) -> exists ids', map_ids f ids = Ok ids'.
+Proof.
+  intros f ids H. unfold map_ids. apply mapM_ok. intros kv Hkv.
+  destruct (H kv Hkv) as [b Hb]. rewrite Hb. cbn [bind]. eexists; reflexivity.
+Qed.
+
+Lemma ids_rel_F2 : forall (R : expr -> expr -> Prop) ids ids',
+  Forall2 (fun kv kv' => fst kv' = fst kv /\ R (snd kv) (snd kv')) ids ids' -> ids_rel R ids ids'.
+Proof.
+  intros R ids ids' H. induction H as [|[k b] [k' b'] l l' Hxy Hl IH]; intros i; cbn [lookup].
+  - exact I.
+  - cbn [fst snd] in Hxy. destruct Hxy as [-> HR].
+    destruct (str_eqb i k); [exact HR|apply IH].
+Qed.
+
+Lemma wf_cond_rel : forall (R : expr -> expr -> Prop) ids ids', ids_rel R ids ids' ->
+  forall e, wf_cond ids e = true -> wf_cond ids' e = true.
+Proof.
+  intros R ids ids' Hrel. induction e as [e IH] using size_ind. intros Hw.
+  destruct e as [s l|l s r|b|f m|f|z|i|z|k e|cols rows|e|f e| |s f c]; try discriminate Hw;
+    cbn [wf_cond] in *.
+  - apply andb_true_iff in Hw. destruct Hw as [Hs Hw]. rewrite Hs. cbn [andb].
+    apply forallb_intro. intros x Hx.
+    apply IH; [apply (size_member s l x Hx)|apply (forallb_In _ _ _ Hw Hx)].
+  - destruct (is_and_or_op s); [|reflexivity].
+    apply andb_true_iff in Hw. destruct Hw as [H1 H2].
+    rewrite (IH l), (IH r); try assumption; try reflexivity; cbn [expr_size]; lia.
+  - unfold has_key in *. specialize (Hrel i).
+    destruct (lookup i ids), (lookup i ids'); try contradiction; try discriminate; reflexivity.
+  - apply IH; [cbn [expr_size]; lia|exact Hw].
+  - apply IH; [cbn [expr_size]; lia|exact Hw].
+  - apply IH; [cbn [expr_size]; lia|exact Hw].
+  - reflexivity.
+Qed.
+
+Lemma shake_total : forall ord e, invc e = true -> exists e', shake ord e = Ok e'.
+Proof.
+  intros ord e Hi. unfold shake.
+  destruct (shake0_totalc C01.o0 [] (shake_fuel e) e Hi) as [e0 H0].
+  rewrite H0. cbn [bind]. eexists; reflexivity.
+Qed.
+
+(* the whole shake pass on a condition, the identifier table being fixed *)
+Lemma shake_cond_exact : forall o ord ids e e' (d : docq),
+  ord_keeps ord -> C03.npd d -> forallb (fun kv => wf_body (snd kv)) ids = true ->
+  wf_cond ids e = true -> invc e = true ->
+  shake ord e = Ok e' -> solve_cond o ids e' d = solve_cond o ids e d.
+Proof.
+  intros o ord ids e e' d Hord Hd Hids Hw Hi H. unfold shake in H.
+  apply bind_ok_inv in H. destruct H as [e0 [H0 H]]. injection H as <-.
+  destruct (shake0_postc o ids _ e e0 Hi H0) as [P1 [_ [_ [P6 _]]]].
+  rewrite (shake1_exact_gen o ids Hids d Hd ord Hord _ e0
+             (shake0_wfc ids _ e e0 Hw H0) (invc_nn e0 P1) (invc_cl e0 P1)).
+  apply P6.
+Qed.
+
+Lemma input_ok_split : forall t,
+  C01.no_nested t && C01.sh0 t && C01.no_dneg t && C01.shx t = true ->
+  C01.no_nested t = true /\ C01.sh0 t = true /\ C01.no_dneg t = true /\ C01.shx t = true.
+Proof.
+  intros t H. apply andb_true_iff in H. destruct H as [H H4].
+  apply andb_true_iff in H. destruct H as [H H3].
+  apply andb_true_iff in H. destruct H as [H1 H2]. auto.
+Qed.
+
+(* optimise_no_matrix_exact_flat is false as stated for reason (a): with a hash order that
+   loses keys the merged searches of an or-group are lost *)
+Lemma optimise_no_matrix_exact_flat_refuted :
+  let f := [102%N] in let g := [103%N] in
+  let e := EGroup BOr [ESearch (SContains [97%N]) f false; ESearch (SContains [98%N]) g false] in
+  let r := mk_rule (EIdent [88%N]) [([88%N], e)] in
+  let d : doc := fun k => if str_eqb k f then Some (VStr [97%N]) else None in
+  let sw := {| sw_coalesce := true; sw_shake := true; sw_rewrite := false; sw_matrix := false |} in
+  wf_det (r_det r) = true /\ r_optimised r = false /\
+  C01.no_nested (d_expr (r_det r)) = true /\ C01.cmp_leaves (d_expr (r_det r)) = true /\
+  shake_input_ok C01.o0 sw (r_det r) = true /\
+  matches C01.o0 r d = Ok true /\
+  exists r', optimise C01.o0 (fun _ => []) sw r = Ok r' /\ matches C01.o0 r' d = Ok false.
+Proof.
+  cbv zeta. do 6 (split; [vm_compute; reflexivity|]).
+  eexists. split; [vm_compute; reflexivity|]. vm_compute. reflexivity.
+Qed.
+
+Lemma optimise_no_matrix_exact_flat_keeps : forall o ord sw r (d : doc),
+  ord_keeps ord ->
+  C01.H_strip o ->
+  sw_matrix sw = false ->
+  wf_det (r_det r) = true -> r_optimised r = false ->
+  C01.no_nested (d_expr (r_det r)) = true -> C01.cmp_leaves (d_expr (r_det r)) = true ->
+  (sw_coalesce sw = true \/ no_quant_ident (d_expr (r_det r)) = true) ->
+  (sw_shake sw = true -> shake_input_ok o sw (r_det r) = true) ->
+  exists r', optimise o ord sw r = Ok r' /\
+             solve_rule3 o (r_det r') (pure_doc d) = solve_rule3 o (r_det r) (pure_doc d) /\
+             matches o r' d = matches o r d.
+Proof.
+  intros o ord sw r d Hord Hst Hmx Hwf Hopt Hnn Hcl Hqi Hin.
+  enough (E : exists r', optimise o ord sw r = Ok r' /\
+             solve_rule3 o (r_det r') (pure_doc d) = solve_rule3 o (r_det r) (pure_doc d)).
+  { destruct E as [r' [E1 E2]]. exists r'. split; [exact E1|]. split; [exact E2|].
+    unfold matches. rewrite E2. reflexivity. }
+  destruct (sw_shake sw) eqn:Hsh.
+  2:{ apply (C01.optimise_coalesce_rewrite_exact_alt o ord sw r (pure_doc d)); assumption. }
+  specialize (Hin eq_refl).
+  pose proof (C03.npd_pure d) as Hd.
+  pose proof (wf_det_ids _ Hwf) as Hids.
+  destruct r as [opt [e ids] tp tn]. cbn [r_det r_optimised d_expr d_ids] in *. subst opt.
+  unfold wf_det in Hwf. cbn [d_expr d_ids] in Hwf.
+  apply andb_true_iff in Hwf. destruct Hwf as [Hwc Hwb].
+  unfold shake_input_ok, staged in Hin. cbn [d_expr d_ids] in Hin.
+  unfold optimise. cbn [r_optimised r_det r_tp r_tn]. unfold optimise_detection.
+  rewrite Hsh, Hmx. cbn [d_expr d_ids].
+  destruct (sw_coalesce sw) eqn:Hco.
+  - (* coalesce on: one identifier-free tree *)
+    destruct (coalesce_sem o ids Hids e Hwc Hnn Hcl) as [e1 [He1 [Hw1 Hsem1]]].
+    rewrite He1 in Hin. cbn [ok_or all_trees fst snd map forallb] in Hin.
+    apply andb_true_iff in Hin. destruct Hin as [Hin _].
+    destruct (input_ok_split e1 Hin) as [I1 [I2 [I3 I4]]].
+    assert (Hi1 : invc e1 = true).
+    { apply (invc_of [] e1 false); auto using no_dneg_here. apply C03.wf_body_cond_nil. exact Hw1. }
+    destruct (shake_total ord e1 Hi1) as [e2 He2].
+    destruct (shake_exact_flat_keeps o ord e1 e2 (pure_doc d) Hord Hd Hw1 I1 I2 I3 I4 He2) as [Hsem2 _].
+    rewrite He1. cbn [bind d_expr d_ids]. rewrite He2. cbn [bind map_ids mapM d_expr d_ids].
+    destruct (sw_rewrite sw); (eexists; split; [reflexivity|]); cbn [r_det]; unfold solve_rule3;
+      cbn [d_expr d_ids map].
+    + change (solve_cond o [] (rewrite o e2) (pure_doc d)) with (solve_body o (rewrite o e2) (pure_doc d)).
+      rewrite (rw_body o Hst), Hsem2. apply Hsem1.
+    + change (solve_cond o [] e2 (pure_doc d)) with (solve_body o e2 (pure_doc d)).
+      rewrite Hsem2. apply Hsem1.
+  - (* coalesce off: the condition and every identifier body *)
+    destruct Hqi as [Hqi|Hqi]; [discriminate Hqi|].
+    cbn [bind all_trees fst snd forallb] in *.
+    apply andb_true_iff in Hin. destruct Hin as [Hine Hinb].
+    destruct (input_ok_split e Hine) as [I1 [I2 [I3 I4]]].
+    assert (Hbody : forall kv, In kv ids ->
+              wf_body (snd kv) = true /\ invc (snd kv) = true /\
+              C01.no_nested (snd kv) = true /\ C01.sh0 (snd kv) = true /\
+              C01.no_dneg (snd kv) = true /\ C01.shx (snd kv) = true).
+    { intros kv Hkv. pose proof (forallb_In _ _ _ Hwb Hkv) as Hw. cbn beta in Hw.
+      assert (Hin' : In (snd kv) (map snd ids)) by (apply in_map; exact Hkv).
+      pose proof (forallb_In _ _ _ Hinb Hin') as Hb. cbn beta in Hb.
+      destruct (input_ok_split _ Hb) as [B1 [B2 [B3 B4]]].
+      split; [exact Hw|]. split; [|auto].
+      apply (invc_of [] (snd kv) false); auto using no_dneg_here. apply C03.wf_body_cond_nil. exact Hw. }
+    destruct (map_ids_ok (shake ord) ids) as [ids2 Hids2].
+    { intros kv Hkv. apply shake_total. apply (Hbody kv Hkv). }
+    pose proof (map_ids_F2 _ _ _ Hids2) as HF.
+    assert (HF' : Forall2 (fun kv kv' => fst kv' = fst kv /\
+                     ((forall d0, C03.npd d0 -> solve_body o (snd kv') d0 = solve_body o (snd kv) d0) /\
+                      wf_body (snd kv') = true)) ids ids2).
+    { eapply Forall2_In_impl; [exact HF|]. intros kv kv' Hkv _ [Hk Hs].
+      split; [exact Hk|]. destruct (Hbody kv Hkv) as [B0 [_ [B1 [B2 [B3 B4]]]]].
+      split.
+      - intros d0 Hd0. apply (shake_exact_flat_keeps o ord _ _ d0 Hord Hd0 B0 B1 B2 B3 B4 Hs).
+      - apply (shake_exact_flat_keeps o ord _ _ (pure_doc d) Hord Hd B0 B1 B2 B3 B4 Hs). }
+    assert (Hwb2 : forallb (fun kv => wf_body (snd kv)) ids2 = true).
+    { eapply Forall2_forallb; [exact HF'|]. intros kv kv' _ [_ [_ Hw]]. exact Hw. }
+    assert (Hrel : ids_rel (fun b b' => solve_body o b' (pure_doc d) = solve_body o b (pure_doc d)) ids ids2).
+    { apply ids_rel_F2. eapply Forall2_In_impl; [exact HF'|]. intros kv kv' _ _ [Hk [Hs _]].
+      split; [exact Hk|]. apply Hs. exact Hd. }
+    pose proof (wf_cond_rel _ _ _ Hrel e Hwc) as Hwc2.
+    assert (Hie : invc e = true) by (apply (invc_of ids e false); auto using no_dneg_here).
+    destruct (shake_total ord e Hie) as [e2 He2].
+    pose proof (shake_cond_exact o ord ids2 e e2 (pure_doc d) Hord Hd Hwb2 Hwc2 Hie He2) as Hsem.
+    pose proof (solve_ids_change o ids ids2 (pure_doc d) Hrel e Hwc Hnn Hqi) as Hchg.
+    cbn [d_expr d_ids]. rewrite He2. cbn [bind]. rewrite Hids2. cbn [bind d_expr d_ids].
+    destruct (sw_rewrite sw); (eexists; split; [reflexivity|]); cbn [r_det]; unfold solve_rule3;
+      cbn [d_expr d_ids].
+    + rewrite (rewrite_exact o ids2 e2 (pure_doc d) Hst), Hsem. exact Hchg.
+    + rewrite Hsem. exact Hchg.
+Qed.
+
+Lemma optimise_no_matrix_exact_flat_alt : forall o ord sw r (d : doc),
+  (forall l, Permutation (ord l) l) ->
+  C01.H_strip o ->
+  sw_matrix sw = false ->
+  wf_det (r_det r) = true -> r_optimised r = false ->
+  C01.no_nested (d_expr (r_det r)) = true -> C01.cmp_leaves (d_expr (r_det r)) = true ->
+  (sw_coalesce sw = true \/ no_quant_ident (d_expr (r_det r)) = true) ->
+  (sw_shake sw = true -> shake_input_ok o sw (r_det r) = true) ->
+  exists r', optimise o ord sw r = Ok r' /\
+             solve_rule3 o (r_det r') (pure_doc d) = solve_rule3 o (r_det r) (pure_doc d) /\
+             matches o r' d = matches o r d.
+Proof.
+  intros o ord sw r d Hord. apply optimise_no_matrix_exact_flat_keeps.
+  apply perm_ord_keeps. exact Hord.
 Qed.
 
 (* ---- non-vacuity ---- *)
